@@ -198,6 +198,40 @@ def oracle(ctx, seeds=None):
                 res.fail(key, "rescaled problem (rho*2^%d, u*2^%d, x*2^%d): rhs differs from the rescaled rhs by %r relative (eq %d, scheme %r flux %r bc %r/%r)" %
                          (ka, kb, kl, err, k, cfg['scheme'], cfg['flux'], bct[0], bct[1]), rp)
                 break
+    # ---------------- change of units through the driver: snapshots of the rescaled twin, extreme time factors included
+    for i in range(ctx.n(16, 200)):
+        model = str(rng.choice(['conv', 'burgers', 'euler', 'sw']))
+        cfg = cfg1d.rand_config(rng, model=model, per=True, n=int(rng.integers(4, 8)), meshkind='uni', smooth=True,
+                                scheme=['muscl', 'minmod'] if i % 2 else ['extrapol1'])
+        if model == 'burgers':
+            cfg['prim'] = [[float(x) for x in (2.0 + 0.4 * rng.uniform(-1, 1, cfg['n']))]]
+        ka, kb, kl = int(rng.integers(-8, 9)), int(rng.choice([-40, -20, 0, 20, 40])), int(rng.choice([-42, -10, 0, 10, 30]))
+        a, b, l = 2.0 ** ka, 2.0 ** kb, 2.0 ** kl
+        name = str(rng.choice(['explicit', 'rk3ssp', 'rk4', 'lsrk25bb']))
+        sc_cfg, cf, tf, slen = scale_cfg(cfg, a, b, l)
+        def run():
+            mod, msh, disc, f = cfg1d.build(cfg)
+            dt0 = float(np.min(disc.calc_timestep(f, 0.4)))
+            ts = [dt0 * x for x in (0.5, 1.25, 1.5, 3.75)]
+            r0 = getattr(impl.integ, name)(msh, disc).solve(f, 0.4, ts)
+            mods, mshs, discs, fs = build_with_length(sc_cfg, slen)
+            rs = getattr(impl.integ, name)(mshs, discs).solve(fs, 0.4, [t * tf for t in ts])
+            return r0, rs, mod.neq
+        ok, out = impl.guarded(run)
+        res.case(('units-solve', model, name, kb, kl))
+        rp = dict(cfg=cfg, kind='units-solve', a=ka, b=kb, l=kl, integrator=name)
+        if not ok:
+            res.fail('%s:units-solve-raised' % model, out, rp); continue
+        r0, rs, neq = out
+        if len(r0) != len(rs) or [q_.it for q_ in r0] != [q_.it for q_ in rs]:
+            res.fail('%s:units-solve:bookkeeping' % model, "rescaled twin (t*2^%d): %d snapshots with iteration tags %r, original %d with %r" % (kl - kb, len(rs), [q_.it for q_ in rs], len(r0), [q_.it for q_ in r0]), rp); continue
+        for q0_, qs_ in zip(r0, rs):
+            bad = abs(qs_.time - q0_.time * tf) > 1e-13 * abs(q0_.time * tf)
+            for k in range(neq):
+                sc = float(np.max(np.abs(q0_.data[k]))) + 1e-300
+                bad = bad or not np.all(np.abs(qs_.data[k] / cf[k] - q0_.data[k]) <= 1e-11 * sc)
+            if bad:
+                res.fail('%s:units-solve' % model, "snapshot of the rescaled twin (rho*2^%d, u*2^%d, x*2^%d) is not the rescaled snapshot (time %r vs %r)" % (ka, kb, kl, qs_.time, q0_.time * tf), rp); break
     return res
 
 
